@@ -236,8 +236,8 @@ func onePair(c *hx.Ctx, id, sk, dk string, round int, r *hx.Rng) {
 		budget = 400 << 10
 	}
 	o := genOpts{budget: budget, maxFile: 100000, depth: 3, maxEnts: 28, longNames: true,
-		noDot: sk == "iso9660" || isFAT(sk),
-		links: dk == "ext4" && (sk == "osdir" || sk == "ext4") && round%2 == 1,
+		noDot:  sk == "iso9660" || isFAT(sk),
+		links:  dk == "ext4" && (sk == "osdir" || sk == "ext4") && round%2 == 1,
 		others: sk == "osdir" && round%3 == 2}
 	tree := genTree(r, o)
 	safeSizes := isFAT(sk) && round%2 == 0
